@@ -291,7 +291,7 @@ def eq_disk(f, want, got):
         if len(want) != len(got):
             return False
         for k, a in want.items():
-            hit = [kk for kk in got if type(kk) is type(k) and kk == k]
+            hit = [kk for kk in got if (type(kk) is type(k) or (isinstance(kk, str) and isinstance(k, str))) and kk == k]
             if not hit or not eq_disk(f.get("valf"), a, got[hit[0]]):
                 return False
         return True
